@@ -122,8 +122,8 @@ impl Property for C09 {
     }
     fn budget(&self, tier: Tier) -> Budget {
         match tier {
-            Tier::Quick => Budget { cases: 80_000, min_len: 4, max_len: 120 },
-            Tier::Thorough => Budget { cases: 6_000_000, min_len: 4, max_len: 160 },
+            Tier::Quick => Budget { cases: 1000000, min_len: 4, max_len: 120 },
+            Tier::Thorough => Budget { cases: 20000000, min_len: 4, max_len: 160 },
         }
     }
 
